@@ -20,6 +20,10 @@ fn key_of(expr: &str, r: &Req) -> String {
         "to_string(request.target.port)" => r.target.port().to_string(),
         "`${request.listener}|${request.target.host}`" => format!("{}|{}", r.listener, r.target.host()),
         "request.target.type" => r.target.r#type().to_string(),
+        // keys that are empty for some or for all requests, and a constant key: equal keys all the same
+        "if request.target.type == \"domain\" then request.target.host else \"\"" => if r.target.r#type() == "domain" { r.target.host() } else { String::new() },
+        "\"\"" => String::new(),
+        "\"k\"" => "k".to_string(),
         _ => unreachable!(),
     }
 }
@@ -33,13 +37,16 @@ static KEYS: &[&str] = &[
     "to_string(request.target.port)",
     "`${request.listener}|${request.target.host}`",
     "request.target.type",
+    "if request.target.type == \"domain\" then request.target.host else \"\"",
+    "\"\"",
+    "\"k\"",
 ];
 
 pub async fn run(args: &Args) {
     let mut out = Out::new(
         "C17",
         "c17",
-        "real LoadBalanceConnector with n=1..8 recording members: round-robin windows under a sequential driver and exact totals under 16 concurrent tasks on the multi-thread runtime; hashBy over 8 key expressions with repeated keys (incl. equal key strings from different target representations); random membership and coverage; recorded connector == member used. distinct = distinct (algorithm, n, key expression / driver)",
+        "real LoadBalanceConnector with n=1..8 recording members: round-robin windows under a sequential driver and exact totals under 16 concurrent tasks on the multi-thread runtime; hashBy over 11 key expressions with repeated keys (incl. equal key strings from different target representations, keys that are empty for some or all requests, a constant key); random membership and coverage; recorded connector == member used. distinct = distinct (algorithm, n, key expression / driver)",
     );
     // log statements are part of the code under test: with a subscriber at TRACE level every argument of every debug!/trace!
     // line is really evaluated (into a sink), as it is on a proxy started with -l debug
